@@ -95,6 +95,24 @@ def rule_typaren(ctx, prop):
             rep.inst(f"{g.key} sets {fld} only", None, cfg, ok=ok)
             if not ok:
                 rep.violation(f"{g.key} mark-sets-wrong-field", f"{mk} does not set exactly `{fld} = true`", g.loc(), cfg)
+        # private helpers that format operands under the context they are handed (`hang_type_info_operands(.., context, ..)`)
+        forwarders = set()
+        core = re.compile(r"formatters::luau::(format_type_info_internal|format_hangable_type_info_internal|hang_type_info)$")
+        for hh in prog.fns("stylua_lib"):
+            if hh.kind == "Closure" or not hh.path.startswith("formatters::luau::") or core.search(hh.path):
+                continue
+            cps = [i for i in range(1, hh.argc + 1) if "TypeInfoContext" in hh.locals[i]]
+            if not cps:
+                continue
+            fam = [hh] + [x for x in prog.fns("stylua_lib") if x.path.startswith(hh.path + "::{closure")]
+            for x in fam:
+                for b_, t_ in x.calls():
+                    if core.search(callee(t_)):
+                        for a_ in t_["args"]:
+                            if not is_const(a_) and "TypeInfoContext" in x.local_ty(op_place(a_)["l"]):
+                                roots_ = provenance(x, a_, through=re.compile(PROV_THROUGH.pattern + r"|TypeInfoContext::mark_\w+$"))
+                                if any(r_[0] == "arg" and r_[1] in cps for r_ in roots_) or any(r_[0] == "upvar" for r_ in roots_):
+                                    forwarders.add(hh.path)
         # role -> mark on every layout path
         for fname in ("formatters::luau::format_type_info_internal", "formatters::luau::hang_type_info"):
             g = prog.fn("stylua_lib", fname)
@@ -130,7 +148,8 @@ def rule_typaren(ctx, prop):
                         if blocks is not None and b not in blocks:
                             continue
                         c = callee(t)
-                        if not re.search(r"formatters::luau::(format_type_info_internal|format_hangable_type_info_internal|hang_type_info)$", c):
+                        if not re.search(r"formatters::luau::(format_type_info_internal|format_hangable_type_info_internal|hang_type_info)$", c) \
+                                and c not in forwarders:
                             continue
                         cargs = [a for a in t["args"] if not is_const(a) and "TypeInfoContext" in h.local_ty(op_place(a)["l"])]
                         if not cargs:
